@@ -6,6 +6,7 @@ import (
 	"errors"
 	"io"
 	"strconv"
+	"sync"
 
 	"github.com/google/pprof/internal/plugin"
 	"github.com/google/pprof/profile"
@@ -74,11 +75,19 @@ func (t *vFailObjTool) Disasm(file string, start, end uint64, intelSyntax bool) 
 
 var errVerifNotFound = errors.New("not found")
 
-type vNullUI struct{ errs int }
+// vNullUI counts error lines; like the real UI it may be called from several goroutines.
+type vNullUI struct {
+	mu   sync.Mutex
+	errs int
+}
 
 func (u *vNullUI) ReadLine(prompt string) (string, error)       { return "", io.EOF }
 func (u *vNullUI) Print(args ...interface{})                    {}
-func (u *vNullUI) PrintErr(args ...interface{})                 { u.errs++ }
+func (u *vNullUI) PrintErr(args ...interface{}) {
+	u.mu.Lock()
+	u.errs++
+	u.mu.Unlock()
+}
 func (u *vNullUI) IsTerminal() bool                             { return false }
 func (u *vNullUI) WantBrowser() bool                            { return false }
 func (u *vNullUI) SetAutoComplete(complete func(string) string) {}
